@@ -40,12 +40,19 @@ type Hooks struct {
 	AfterCall  func(e *Engine, st *State, fr *Frame, call *ssa.Call, callee *ssa.Function, args []AVal, ret AVal)
 	OnReturn   func(e *Engine, st *State, fr *Frame, ret *ssa.Return, val AVal)
 	OnStore    func(e *Engine, st *State, fr *Frame, store *ssa.Store, p PtrV, v AVal)
+	// OnSearch fires when a forward search (strings.IndexByte / strings.Index) on a
+	// non-constant haystack is modelled; prev is the live result of an earlier
+	// execution of the same call in this state (nil if none).
+	OnSearch func(e *Engine, st *State, fr *Frame, call *ssa.Call, prev *Hit, cur Hit)
+	// OnRead fires when a byte s[idx] of a non-constant string is read.
+	OnRead func(e *Engine, st *State, fr *Frame, at ssa.Instruction, s StrV, idx Lin)
 }
 
 type Config struct {
 	K         int
 	MaxDepth  int
 	MaxInline int
+	MaxLP     int                 // entailment-query budget per root (0: default 150000)
 	TableLens map[string]int64    // global slice name → length
 	TableRng  map[string][2]int64 // global int table → value range
 	TableVals map[string][]int64  // global byte/int table → contents (from E2)
@@ -55,6 +62,7 @@ type Config struct {
 	Summaries map[*ssa.Function]Summary
 	Hooks     Hooks
 	Trace     bool
+	Peel      bool // peel the first iteration of loops (functions ≤ 60 blocks)
 }
 
 type Frame struct {
@@ -69,6 +77,10 @@ type Frame struct {
 
 func (fr *Frame) Fn() *ssa.Function { return fr.fn }
 func (fr *Frame) Depth() int        { return fr.depth }
+func (fr *Frame) ID() int           { return fr.id }
+
+// Logging reports whether obligations are being recorded (the final pass).
+func (e *Engine) Logging() bool { return e.logging }
 
 // Root returns the outermost frame.
 func (fr *Frame) Root() *Frame {
@@ -115,6 +127,9 @@ func NewEngine(p *core.Program, cfg Config) *Engine {
 	}
 	if cfg.MaxDepth == 0 {
 		cfg.MaxDepth = 14
+	}
+	if cfg.MaxLP == 0 {
+		cfg.MaxLP = 150000
 	}
 	if cfg.MaxInline == 0 {
 		cfg.MaxInline = 20000
